@@ -84,7 +84,8 @@ def all_handlers_linked(ctx, fails):
                 for k in range(1, nlink):
                     t.link("d/" + n, "d/alias%d-%s" % (k, n) if k == 1 else "other/alias%d.bin" % k)
                 before = fh.snapshot(t.root)
-                rc, out = fh.run_cli(["--handler", hs[0], t.path("d")], epoch=samples.EPOCH, timeout=60)
+                # with three links, a link whose name no handler matches is visited before the matching ones
+                rc, out = fh.run_cli(["--handler", hs[0]] + ([t.path("other")] if nlink == 3 else []) + [t.path("d")], epoch=samples.EPOCH, timeout=60)
                 after = fh.snapshot(t.root)
                 label = "%s handler, %d link(s)" % (hs[0], nlink)
                 a, b = after.get("d/" + n), before["d/" + n]
